@@ -683,6 +683,18 @@ func (ev *evaluator) call(x *ECall) Val {
 		a := ev.eval(x.Args[0])
 		t := ev.resolveType(exprString(x.Args[1]))
 		return Val{t: mkSel(c.ifaceCtor(t), 0, a.t), typ: t}
+	case "fdiv", "fmod":
+		// floor division / modulus (equal to Go's / and % when the dividend is non-negative and the divisor positive)
+		a := ev.typed(ev.eval(x.Args[0]), types.Typ[types.Int])
+		b := ev.typed(ev.eval(x.Args[1]), a.typ)
+		op := "div"
+		if id.Name == "fmod" {
+			op = "mod"
+		}
+		if c.bv {
+			op = map[string]string{"div": "bvudiv", "mod": "bvurem"}[op]
+		}
+		return Val{t: app(op, a.t.sort, a.t, b.t), typ: a.typ}
 	case "apply":
 		// apply(f, args...): application of a function-typed value, modelled as a pure function
 		f := ev.eval(x.Args[0])
@@ -799,6 +811,31 @@ func (ev *evaluator) applySpec(sf *specFunc, args []Expr) Val {
 		}
 		vals = append(vals, v)
 	}
+	if sf.opaque {
+		n := sev
+		n.vars = map[string]Val{}
+		n.frame = nil
+		n.where = sf.line
+		for i, p := range sf.params {
+			n.vars[p.Name] = vals[i]
+		}
+		var sorts []string
+		var ts []*T
+		for _, rd := range sf.reads {
+			pc := n.heapPiece(rd)
+			sorts = append(sorts, pc.sort)
+			ts = append(ts, pc)
+		}
+		for _, v := range vals {
+			t := ev.term(v)
+			sorts = append(sorts, t.sort)
+			ts = append(ts, t)
+		}
+		rt := sev.resolveType(sf.ret)
+		name := "op_" + sf.name
+		c.d.fun(name, sorts, c.sortOf(rt))
+		return Val{t: app(name, c.sortOf(rt), ts...), typ: rt}
+	}
 	body := sf.body
 	use := sf
 	if sf.model && ev.implFor != nil {
@@ -845,4 +882,61 @@ func (ev *evaluator) applySpec(sf *specFunc, args []Expr) Val {
 	name := "sf_" + sf.name
 	c.d.fun(name, sorts, c.sortOf(rt))
 	return Val{t: app(name, c.sortOf(rt), ts...), typ: rt}
+}
+
+// heapPiece evaluates a reads-target to the heap piece it denotes in the evaluator's state:
+// a pointer denotes the pointed-to object, a slice its backing array.
+func (ev *evaluator) heapPiece(e Expr) *T {
+	c := ev.c()
+	v := ev.eval(e)
+	switch u := v.typ.Underlying().(type) {
+	case *types.Pointer:
+		return mkSelect(c.heapOf(ev.st, u.Elem()), ev.term(v))
+	case *types.Slice:
+		return mkSelect(c.arrOf(ev.st, u.Elem()), c.slRef(v.t))
+	}
+	ev.fail("reads target %s must be a pointer or a slice", exprString(e))
+	return nil
+}
+
+// genericAxiom evaluates a state-generic axiom: forall binders and forall heap pieces named by reads.
+func (ev *evaluator) genericAxiom(ax *axiomDecl) *T {
+	c := ev.c()
+	q, ok := ax.cl.e.(*EQuant)
+	if !ok || !q.Forall {
+		ev.fail("axiom with a reads clause must be a forall")
+	}
+	n := ev
+	var decl []string
+	for _, b := range q.Vars {
+		t := ev.resolveType(b.Type)
+		qcounter++
+		a := atom(fmt.Sprintf("%s!q%d", sanitize(b.Name), qcounter), c.sortOf(t))
+		n = n.bind(b.Name, Val{t: a, typ: t})
+		decl = append(decl, fmt.Sprintf("(%s %s)", a.op, a.sort))
+	}
+	syn := newState()
+	n = n.with(syn)
+	n.old = nil
+	var wf []*T
+	for _, rd := range ax.reads {
+		v := n.eval(rd)
+		qcounter++
+		switch u := v.typ.Underlying().(type) {
+		case *types.Pointer:
+			o := atom(fmt.Sprintf("obj!q%d", qcounter), c.sortOf(u.Elem()))
+			decl = append(decl, fmt.Sprintf("(%s %s)", o.op, o.sort))
+			syn.heaps[heapKey(u.Elem())] = mkStore(c.heapOf(syn, u.Elem()), n.term(v), o)
+			wf = append(wf, c.valueWF(o, u.Elem()))
+		case *types.Slice:
+			a := atom(fmt.Sprintf("arr!q%d", qcounter), arraySort(c.intSort(), c.sortOf(u.Elem())))
+			decl = append(decl, fmt.Sprintf("(%s %s)", a.op, a.sort))
+			syn.arrs[heapKey(u.Elem())] = mkStore(c.arrOf(syn, u.Elem()), c.slRef(v.t), a)
+		default:
+			ev.fail("reads target must be a pointer or a slice")
+		}
+	}
+	body := n.evalBool(q.Body)
+	body = mkImp(mkAnd(wf...), body)
+	return app("forall ("+strings.Join(decl, " ")+")", "Bool", body)
 }
